@@ -58,6 +58,12 @@ FLOAT_VALUES = ["0.0", "0.0", "2.5", "1.0", "7.25"]
 BOOL_VALUES = ["false", "false", "true", "0", "1"]
 STRING_VALUES = ['""', "''", '""', '"x"', "'y z'", '"0"']
 ID_VALUES = ["foo", "bar", "x1", "true"]
+# reference values (`a=[Decl]`): names of the declared objects (handed to the metamodel as builtins, together
+# with every other identifier-like token a text may contain, so that every reference of every text resolves)
+REF_NAMES = ["d0", "d1", "d2", "d3", "d4", "d5", "d6", "d7"]
+DECL_NAMES = REF_NAMES + ID_VALUES + ["false"]
+DELAYS = [(0, 5), (1, 4), (2, 2), (3, 1)]
+PROVIDER_KEYS = ["*.*", "class.attr", "*.attr", "class.*"]
 
 
 # --------------------------------------------------------------------------
@@ -146,6 +152,8 @@ def render_rhs(a, names=None):
     t = a["rhs"]
     if t.startswith("LIT:"):
         return "'" + t[4:] + "'"
+    if t == "Ref":
+        return "[Decl]"
     return (names or {}).get(t, t)
 
 
@@ -234,6 +242,8 @@ def grammar_text(case):
         v = val_rule(case)
         body = "/[a-z][a-z0-9]*/" if v["kind"] == "re" else " | ".join(v["alts"])
         out.append(f"{names['Val']}: {body} ;")
+    if uses_refs(case):
+        out.append("Decl: 'decl' name=ID ;")
     return "\n".join(out) + "\n"
 
 
@@ -365,7 +375,8 @@ def truthy(cv):
 # generator
 # --------------------------------------------------------------------------
 class G:
-    def __init__(self, rng, attrs, numeric, allow_sub, allow_val=False):
+    def __init__(self, rng, attrs, numeric, allow_sub, allow_val=False, allow_ref=False):
+        self.allow_ref = allow_ref
         self.rng = rng
         self.attrs = attrs
         self.numeric = numeric
@@ -394,7 +405,12 @@ class G:
                 pool.append(("Sub", 3))
             if self.allow_val:
                 pool.append(("Val", 3))
+            if self.allow_ref:
+                pool.append(("Ref", 30))
             self.pref[attr] = rng.weighted(pool)
+        if self.pref[attr] == "Ref":
+            # an attribute holds references at all of its sites or at none (textX decides per attribute)
+            return "Ref"
         t = self.pref[attr] if rng.chance(0.8) else rng.choice(["NUM", "STRING", "BOOL", "ID", "LIT"])
         if t == "NUM":
             t = "FLOAT" if self.numeric == "FLOAT" else "INT"
@@ -545,7 +561,14 @@ def uses_sub(n):
     return uses_rhs(n, "Sub")
 
 
-def gen_case(rng):
+def uses_refs(case):
+    return any(uses_rhs(b, "Ref") for b in case["rules"].values())
+
+
+def gen_case(rng, refs=False):
+    """refs: the reference dimension — attributes whose values are references (`a=[Decl]`, `a+=[Decl]`, …); the
+    values then reach the object in the reference resolution, in the order the scope provider answers (texts
+    with a resolution history: every reference is answered Postponed 0..3 times first)."""
     numeric = "FLOAT" if rng.chance(0.12) else "INT"
     allow_sub = rng.chance(0.35)
     allow_val = rng.chance(0.3)
@@ -560,7 +583,7 @@ def gen_case(rng):
         params["Model"] = [list(x) for x in rng.weighted(RULE_PARAMS)]
         force = rng.weighted([(None, 40), ("rep", 22), ("un", 16), ("opt", 8), ("site", 6), ("seq", 4), ("alt", 4)])
     for _ in range(20):
-        g = G(rng, ATTRS[:nattrs], numeric, allow_sub, allow_val)
+        g = G(rng, ATTRS[:nattrs], numeric, allow_sub, allow_val, refs)
         body = g.body(max(depth, 1) if force else depth, force)
         if not has_asgn(body):
             body = {"k": "seq", "xs": [body, g.site()]}
@@ -577,7 +600,7 @@ def gen_case(rng):
         bare = rng.chance(0.4)
         sforce = rng.weighted([(None, 40), ("rep", 30), ("un", 20), ("alt", 10)]) if bare else None
         for _ in range(20):
-            gs = G(rng, SUB_ATTRS[: rng.randint(1, 2)], numeric, False, allow_val)
+            gs = G(rng, SUB_ATTRS[: rng.randint(1, 2)], numeric, False, allow_val, refs)
             gs.kw, gs.lit = 50, 50
             gs.kw_always = bare
             sb = gs.body(sdepth, sforce)
@@ -609,6 +632,8 @@ def gen_case(rng):
                                   {"kind": "alt", "alts": ["STRING", num]}, {"kind": "alt", "alts": [num, "STRING"]}])
     if names:
         case["names"] = names
+    if refs:
+        case["prov"] = {"key": rng.choice(PROVIDER_KEYS + [None]), "answer": rng.choice(["object", "none"])}
     case["texts"] = gen_texts(case, rng, 3)
     return case
 
@@ -641,6 +666,8 @@ def value_token(rhs, rng, numeric, case=None):
         return rng.choice(STRING_VALUES)
     if rhs == "ID":
         return rng.choice(ID_VALUES)
+    if rhs == "Ref":
+        return rng.choice(REF_NAMES)
     raise ValueError(rhs)
 
 
@@ -745,7 +772,12 @@ def gen_texts(case, rng, n):
                 if vs:
                     q = rng.choice(vs)
                     toks[q] = ["val", "0"] + toks[q][2:]
-        texts.append({"tokens": toks[:40], "origin": origin})
+        t = {"tokens": toks[:40], "origin": origin}
+        if uses_refs(case) and rng.chance(0.8):
+            # the resolution history: how often the scope provider answers Postponed for the reference that
+            # starts at this token (one entry per token; used only where a reference is matched there)
+            t["delays"] = [rng.weighted(DELAYS) if x[0] == "val" and x[1] in DECL_NAMES else 0 for x in t["tokens"]]
+        texts.append(t)
     return texts
 
 
@@ -853,6 +885,9 @@ class Prop(Check):
         "Tx.C02_compile_list_iff",
         "Tx.C02_rule_root_bridge",
         "Tx.C02_tx_pinned_walk_false",
+        "Mult.Ref.C02_ref_any_order",
+        "Mult.Ref.C02_ref_history",
+        "Mult.Ref.C02_ref_stale_false",
     ]
     DRIVER = "Drivers/Mult.lean"
     QUICK_CASES = 300
@@ -872,7 +907,10 @@ class Prop(Check):
             "keyword (then a keyword before each of its assignments; its root has any shape); 3 texts each (derived; one in two mutated; falsy "
             "values 0, \"\", false favoured); non-trivial = the grammar is accepted, some attribute is assigned at "
             ">=2 sites or below a repetition or with *= / +=, and at least one text is accepted in which some object "
-            "gets >=2 values for one attribute or a falsy value")
+            "gets >=2 values for one attribute or a falsy value; plus QUICK/5 cases of the reference dimension: the same bodies "
+            "with reference-valued attributes (a=[Decl] …), declared objects as builtins, per text a resolution history "
+            "(each reference answered Postponed 0..3 steps), provider registered as *.* / Class.attr / *.attr / Class.* / "
+            "none; plus the reference-list family (6 shapes x 27 histories of three references; 30 sampled in quick)")
     MODELLED = ("hand-modelled: lang.py visit_assignment (operator base multiplicities, ?= rejection) and "
                 "_update_attr_multiplicities (Mult.visit / Mult.walk), started from the root expression visit_textx_rule makes of rule "
                 "modifiers + body (Mult.Rule.root: one-element sequence around a lone assignment / around a non-sequence "
@@ -884,19 +922,29 @@ class Prop(Check):
                 "parse tree checked for membership in Mult.Events by the verified matcher, Mult.storeRaw replay of the "
                 "raw trace (list nodes with all children and the parsing expression that made each) vs the attribute "
                 "values of the real model object, the children the model keeps vs the value tokens of the text; not exhibited: Arpeggio's parsing itself "
-                "(traces are taken from its parse trees), references (C08), user classes, object processors")
+                "(traces are taken from its parse trees), user classes, object processors; reference values: "
+                "model.py ReferenceResolver.resolve_one_step, insertion of a resolved reference into a list by its text "
+                "position (Mult.Ref.resolveRef / resolveAll, order of resolution of a Postponed history = scheduleOf), "
+                "replayed per reference list with the text's history and compared with the real list")
     ASSUMPTIONS = [
         "attribute defaults are Python-falsy (None, 0, '', False, 0.0) — checked on every unassigned scalar attribute",
         "the assignment trace of an object is what Arpeggio's parse tree shows below the object's node (children with rule name __asgn_*, in order)",
         "Events over-approximates the traces of an unordered group (an element's trace may be inserted anywhere in the trace of the others)",
         "a child of a list assignment node is a value iff it is a contained object or starts at a value token of the generated text (separator, keyword and value tokens are disjoint by construction); the model instead skips the children made by the repetition's separator match — both are compared on every list node",
-        "values are non-reference values (base types, string matches, contained objects); list order of references is C08",
+        "references resolve to declared objects handed to the metamodel as builtins; the scope provider of the harness answers Postponed a drawn number of times per reference, then the object (or None = builtins fallback); a reference is observed by the name of its target",
+        "an attribute holds references at all of its assignment sites or at none",
     ]
 
     # ---- generation ------------------------------------------------------
     def gen(self, rng, n, tier):
         for _ in range(n):
             yield gen_case(rng)
+        # the reference dimension (a stream of its own: the cases above stay what they were)
+        rr = rng.fork("refs")
+        for _ in range(n // 5):
+            yield gen_case(rr, refs=True)
+        fam = list(ref_family(rr))
+        yield from (fam if tier == "thorough" else rr.sample(fam, 30))
         if tier == "thorough":
             yield from small_family(rng)
             yield from rule_family(rng)
@@ -907,8 +955,8 @@ class Prop(Check):
                 yield from rng.sample([c for c in fam if part in (c.get("params") or {"Model": 0})], 12)
 
     def extra_search(self, rng, tier, broken):
-        out = list(small_family(rng)) + list(rule_family(rng))
-        out += [gen_case(rng) for _ in range(1500)]
+        out = list(small_family(rng)) + list(rule_family(rng)) + list(ref_family(rng))
+        out += [gen_case(rng, refs=i % 4 == 3) for i in range(1500)]
         return out
 
     # ---- implementation --------------------------------------------------
@@ -920,9 +968,12 @@ class Prop(Check):
 
         gtxt = grammar_text(case)
         obs = {"grammar_text": gtxt}
+        with_refs = uses_refs(case)
+        decls = {}  # the declared objects references resolve to: the metamodel's builtins (filled below)
         try:
             with watchdog(40):
                 mm = metamodel_from_str(gtxt, auto_init_attributes=bool(case.get("auto_init", True)),
+                                        **({"builtins": decls} if with_refs else {}),
                                         **({"memoization": True} if case.get("memo") else {}),
                                         **({"skipws": False} if case.get("mm_skipws") is False else {}))
         except Watchdog:
@@ -954,6 +1005,34 @@ class Prop(Check):
             roots[rule] = [type(peg).__name__, len(getattr(peg, "nodes", []) or [])]
         obs["grammar"] = {"ok": mults}
         obs["roots"] = roots
+        refpos = []  # per text: the positions at which a reference is matched
+        delay, calls = {}, {}  # per text: reference position -> Postponed answers wanted / provider calls so far
+        if with_refs:
+            from textx.scoping import Postponed
+            decl_cls = mm["Decl"]
+            for dn in DECL_NAMES:
+                d = decl_cls()
+                d.name = dn
+                decls[dn] = d
+
+            def provider(obj, attr, obj_ref):
+                calls[obj_ref.position] = calls.get(obj_ref.position, 0) + 1
+                if calls[obj_ref.position] <= delay.get(obj_ref.position, 0):
+                    return Postponed()
+                return decls.get(obj_ref.obj_name) if prov.get("answer") == "object" else None
+
+            prov = case.get("prov") or {}
+            ref_attrs = [(names[r], a) for r in case["rules"] for a, m in mm[names[r]]._tx_attrs.items()
+                         if m.ref and not m.cont]
+            if prov.get("key") == "*.*":
+                mm.register_scope_providers({"*.*": provider})
+            elif prov.get("key") == "class.attr":
+                mm.register_scope_providers({f"{c}.{a}": provider for c, a in ref_attrs})
+            elif prov.get("key") == "*.attr":
+                mm.register_scope_providers({f"*.{a}": provider for c, a in ref_attrs})
+            elif prov.get("key") == "class.*":
+                mm.register_scope_providers({f"{c}.*": provider for c, a in ref_attrs})
+            # without a provider: the default scope provider finds nothing and the builtins answer
         obs["texts"] = []
         # name in the grammar text -> internal key, of the rules that make objects
         rule_names = {names[r]: r for r in case["rules"]}
@@ -1004,13 +1083,20 @@ class Prop(Check):
         def tree_obj(node, objs):
             rec = {"rule": rule_names[node.rule_name], "pos": node.position, "trace": []}
             objs.append(rec)
+            mattrs = mm[node.rule_name]._tx_attrs
             for c in node:
                 if isinstance(c, NonTerminal) and c.rule_name.startswith("__asgn"):
                     op = {"plain": "=", "optional": "?=", "zeroormore": "*=", "oneormore": "+="}[c.rule_name.split("_")[-1]]
                     attr = c.rule._attr_name
                     ev = {"a": attr, "op": op}
+                    isref = attr in mattrs and mattrs[attr].ref and not mattrs[attr].cont
+                    if isref:
+                        ev["ref"] = True
                     if op == "=":
                         ev["vs"] = [tree_value(c[0], objs)]
+                        if isref:
+                            refpos.append(c[0].position)
+                            ev["rpos"] = [c[0].position]
                     elif op == "?=":
                         ev["vs"] = [prim(True)]
                     else:
@@ -1021,6 +1107,9 @@ class Prop(Check):
                         ev["kids"] = [{"r": rid(x.rule), "kind": kid_kind(x), "v": tree_value(x, objs)} for x in c]
                         # the values, by the text: children that are value tokens or contained objects
                         ev["vs"] = [k["v"] for k in ev["kids"] if k["kind"] in ("val", "obj")]
+                        if isref:
+                            ev["rpos"] = [x.position for x in c if kid_kind(x) == "val"]
+                            refpos.extend(ev["rpos"])
                     rec["trace"].append(ev)
                 elif isinstance(c, NonTerminal) and c.rule_name in rule_names:
                     # an object that is matched but assigned nowhere (not generated)
@@ -1032,6 +1121,8 @@ class Prop(Check):
             def val(v):
                 if isinstance(v, list):
                     return [val(x) for x in v]
+                if with_refs and type(v) is decl_cls:
+                    return prim(v.name)  # a reference is observed by the name of the object it points to
                 if is_obj(v):
                     go(v)
                     return {"obj": getattr(v, "_tx_position", None), "rule": rule_names.get(type(v).__name__, type(v).__name__)}
@@ -1057,6 +1148,9 @@ class Prop(Check):
             kinds.clear()
             kinds.update(token_kinds(t))
             rids.clear()
+            refpos.clear()
+            delay.clear()
+            calls.clear()
             # 1. what the parser matched
             try:
                 with watchdog(20):
@@ -1080,6 +1174,15 @@ class Prop(Check):
                 tree_obj(top, objs)
                 raw_tokens(top, assigned)
             tobs["parse"] = {"ok": {"objs": objs, "assigned": assigned}}
+            if with_refs:
+                # the resolution history of this text: the delays drawn for the tokens at which a reference is
+                # matched, made contiguous (0, 1, 2, … all occur) so that every resolution step resolves
+                # something and the resolution as a whole succeeds
+                raw = dict(zip(layout(t)[1], t.get("delays") or []))
+                levels = sorted({raw.get(q, 0) for q in refpos})
+                if prov.get("key") in PROVIDER_KEYS:
+                    delay.update({q: levels.index(raw.get(q, 0)) for q in refpos})
+                tobs["refs"] = [[q, delay.get(q, 0)] for q in sorted(refpos)]
             # 2. what the model holds
             try:
                 with watchdog(20):
@@ -1136,8 +1239,27 @@ class Prop(Check):
                                   "kids": [{"r": k["r"], "t": truthy(k["v"]), "v": k["v"]} for k in e["kids"]]})
                 else:
                     trace.append({"a": idx[e["a"]], "op": e["op"], "vs": [{"t": truthy(v), "v": v} for v in e["vs"]]})
-            req["objs"].append({"rule": ridx[o["rule"]], "trace": trace})
+            ob = {"rule": ridx[o["rule"]], "trace": trace}
+            rl = self._ref_lists(obs, ti, o)
+            if rl:
+                ob["refs"] = [{"n": max([r["d"] for r in refs] + [0]), "refs": refs} for _, refs in rl]
+            req["objs"].append(ob)
         return req
+
+    def _ref_lists(self, obs, ti, o):
+        """[(attribute, [{"d", "p", "v"} …])] — the reference lists of the tree object `o` of text `ti`: per list
+        attribute that holds references, the references in the order `process_node` records them, each with the
+        number of resolution steps in which the scope provider first answers Postponed."""
+        t = obs["texts"][ti]
+        if not t.get("refs"):
+            return []
+        delay = {q: d for q, d in t["refs"]}
+        mults = obs["grammar"]["ok"].get(o["rule"], {})
+        out = {}
+        for e in o["trace"]:
+            if e.get("ref") and mults.get(e["a"]) in MANY and len(e.get("rpos", [])) == len(e["vs"]):
+                out.setdefault(e["a"], []).extend({"d": delay.get(q, 0), "p": q, "v": v} for q, v in zip(e["rpos"], e["vs"]))
+        return sorted(out.items())
 
     # ---- correspondence --------------------------------------------------
     def compare(self, case, obs, out):
@@ -1197,6 +1319,11 @@ class Prop(Check):
                 x = real.get((o["rule"], o["pos"]))
                 if x is None:
                     return f"text {ti}: object {o['rule']}@{o['pos']} of the parse tree is not in the model"
+                # reference lists: the resolver model replayed with this text's history vs the real list
+                for (a, _), ml in zip(self._ref_lists(obs, ti, o), mo.get("reflists") or []):
+                    if x["attrs"].get(a) != ml:
+                        return (f"text {ti}: reference list {o['rule']}@{o['pos']}.{a} = {x['attrs'].get(a)} (implementation) "
+                                f"vs {ml} (resolver model, history {t.get('refs')})")
                 attrs = rules[ridx[o["rule"]]][2]
                 for a, slot in zip(attrs, mo["store"]["ok"]):
                     v = x["attrs"].get(a)
@@ -1314,9 +1441,14 @@ class Prop(Check):
              "grammars_with_rule_modifiers": 0, "rules_with_modifiers_by_root": {}, "rules_root_wrapped_model": 0,
              "rules_root_wrapped_agreement": [0, 0], "texts_accepted_in_noskipws_grammars": 0,
              "grammars_with_memoization": 0, "grammars_with_redundant_parentheses": 0,
-             "grammars_with_metamodel_noskipws": 0, "contained_rules_without_keyword_by_root": {}}
+             "grammars_with_metamodel_noskipws": 0, "contained_rules_without_keyword_by_root": {},
+             "grammars_with_references": 0, "texts_with_references": 0, "references": 0, "references_postponed": 0,
+             "texts_with_postponed_before_direct_reference": 0, "reference_lists_2plus": 0,
+             "reference_lists_checked_by_resolver_model": 0}
         d["exact_multiplicity_agreement"] = [0, 0]
         for c, o, mo in zip(cases, obs, outs):
+            if isinstance(mo, dict):
+                d["reference_lists_checked_by_resolver_model"] += sum(len(x.get("reflists") or []) for x in mo.get("objs", []))
             if isinstance(o, dict) and "ok" in o.get("grammar", {}) and isinstance(mo, dict) and "rules" in mo:
                 for (r, _, attrs, _), ro in zip(self._rules(c), mo["rules"]):
                     for a, mm_ in zip(attrs, ro["mults"]):
@@ -1337,6 +1469,7 @@ class Prop(Check):
                 d["grammars_with_eolterm"] += has_eol(c)
                 d["grammars_with_rule_modifiers"] += bool(c.get("params"))
                 d["grammars_with_memoization"] += bool(c.get("memo"))
+                d["grammars_with_references"] += uses_refs(c)
                 d["grammars_with_metamodel_noskipws"] += c.get("mm_skipws") is False
                 if c.get("sub_bare"):
                     key = rule_body(c, "Sub")["k"]
@@ -1359,6 +1492,19 @@ class Prop(Check):
                 d["texts_mutated"] += tc.get("origin") == "mutated"
                 p = t.get("parse", {})
                 d["watchdog"] += p.get("other") == "Watchdog" or t.get("model", {}).get("other") == "Watchdog"
+                if "ok" in p and t.get("refs"):
+                    rs = sorted(t["refs"])
+                    d["texts_with_references"] += 1
+                    d["references"] += len(rs)
+                    d["references_postponed"] += sum(1 for _, dl in rs if dl)
+                    d["texts_with_postponed_before_direct_reference"] += any(
+                        dl > rs[j][1] for i, (_, dl) in enumerate(rs) for j in range(i + 1, len(rs)))
+                    for ob in p["ok"]["objs"]:
+                        per = {}
+                        for e in ob["trace"]:
+                            if e.get("ref"):
+                                per[e["a"]] = per.get(e["a"], 0) + len(e["vs"])
+                        d["reference_lists_2plus"] += sum(1 for k_ in per.values() if k_ >= 2)
                 if "ok" in p:
                     d["texts_accepted"] += 1
                     d["texts_accepted_in_noskipws_grammars"] += c.get("mm_skipws") is False or any(
@@ -1403,7 +1549,7 @@ class Prop(Check):
                 if uses_sub(rules["Model"]) and "Sub" not in rules:
                     continue
                 c = {"rules": rules, "auto_init": case.get("auto_init", True), "texts": []}
-                for key in ("names", "val", "memo", "mm_skipws"):
+                for key in ("names", "val", "memo", "mm_skipws", "prov"):
                     if key in case:
                         c[key] = case[key]
                 if case.get("sub_bare") and "Sub" in rules and can_be_bare(rules["Sub"]):
@@ -1439,8 +1585,22 @@ class Prop(Check):
         # shorter texts
         if len(texts) == 1:
             toks = texts[0]["tokens"]
+            ds = texts[0].get("delays")
             for j in range(len(toks)):
-                yield dict(case, texts=[{"tokens": toks[:j] + toks[j + 1:], "origin": "shrunk"}])
+                t = {"tokens": toks[:j] + toks[j + 1:], "origin": "shrunk"}
+                if ds:
+                    t["delays"] = ds[:j] + ds[j + 1:]
+                yield dict(case, texts=[t])
+            # a simpler resolution history: nothing postponed, one reference less postponed, postponed once
+            if ds and any(ds):
+                yield dict(case, texts=[{k_: v for k_, v in texts[0].items() if k_ != "delays"}])
+                for j, dl in enumerate(ds):
+                    if dl:
+                        yield dict(case, texts=[dict(texts[0], delays=ds[:j] + [0] + ds[j + 1:])])
+                if max(ds) > 1:
+                    yield dict(case, texts=[dict(texts[0], delays=[min(dl, 1) for dl in ds])])
+            if case.get("prov") and case["prov"] != {"key": "*.*", "answer": "object"}:
+                yield dict(case, prov={"key": "*.*", "answer": "object"})
 
 
 def shrink_body(n):
@@ -1471,8 +1631,8 @@ def shrink_body(n):
         if n.get("eol"):
             yield {kk: v for kk, v in n.items() if kk != "eol"}
     if k == "asgn":
-        if n["rhs"] != "INT" and n["op"] != "?=":
-            yield dict(n, rhs="INT")
+        if n["rhs"] not in ("INT", "Ref") and n["op"] != "?=":
+            yield dict(n, rhs="INT")  # (not a reference: an attribute holds references at all of its sites or at none)
 
 
 def small_family(rng):
@@ -1546,3 +1706,60 @@ def rule_family(rng):
                 c["texts"] = gen_texts(c, rng, 3)
                 c["origin"] = "family"
                 yield c
+
+
+def ref_family(rng):
+    """Reference lists x resolution histories, complete for three references of one list: every way one
+    object collects several references for one attribute (list assignment with / without separator, plain
+    assignment below a repetition, a sequence of plain assignments, plain + list assignment, unordered group,
+    contained objects with a reference list each) x every history in which each of the first three references
+    is answered Postponed 0, 1 or 2 times (27), x how the provider is registered and what it answers."""
+    def kw(s):
+        return {"k": "kw", "s": s}
+
+    def ref(op, **kv):
+        return dict({"k": "asgn", "a": "a", "op": op, "rhs": "Ref"}, **kv)
+
+    def v(i):
+        return ["val", REF_NAMES[i]]
+
+    shapes = [
+        (ref("+="), lambda n: [v(i) for i in range(n)]),
+        (ref("*=", sep={"s": ","}), lambda n: [x for i in range(n) for x in ([["sep", ","]] if i else []) + [v(i)]]),
+        ({"k": "rep", "plus": True, "x": {"k": "seq", "xs": [kw("@01"), ref("=")]}},
+         lambda n: [x for i in range(n) for x in (["kw", "@01"], v(i))]),
+        ({"k": "seq", "xs": [kw("@01"), ref("="), kw("@02"), ref("="), kw("@03"), ref("*=")]},
+         lambda n: [["kw", "@01"], v(0), ["kw", "@02"], v(1), ["kw", "@03"]] + [v(i) for i in range(2, n)]),
+        ({"k": "un", "form": "seq", "xs": [{"k": "seq", "xs": [kw("@01"), ref("=")]}, {"k": "seq", "xs": [kw("@02"), ref("+=")]}]},
+         lambda n: [["kw", "@02"]] + [v(i) for i in range(n - 1)] + [["kw", "@01"], v(n - 1)]),
+    ]
+    hist = [(d0, d1, d2) for d0 in range(3) for d1 in range(3) for d2 in range(3)]
+    for si, (body, toks) in enumerate(shapes):
+        for hi in range(0, len(hist), 3):
+            texts = []
+            for h in hist[hi:hi + 3]:
+                n = 3 + (sum(h) + si) % 2
+                tk = toks(n)
+                ds, j = [], 0
+                for x in tk:
+                    if x[0] == "val":
+                        ds.append(h[j] if j < 3 else 0)
+                        j += 1
+                    else:
+                        ds.append(0)
+                texts.append({"tokens": tk, "origin": "family", "delays": ds})
+            yield {"rules": {"Model": body}, "auto_init": rng.chance(0.5), "texts": texts, "origin": "family",
+                   "prov": {"key": rng.choice(PROVIDER_KEYS), "answer": rng.choice(["object", "none"])}}
+    # contained objects, each with a reference list of its own (the resolver keeps one bookkeeping per list)
+    sub = {"k": "seq", "xs": [ref("+=", a="x")]}
+    for hi in range(0, len(hist), 3):
+        texts = []
+        for h in hist[hi:hi + 3]:
+            tk, ds = [], []
+            for o in range(2):
+                tk += [["kw", "@sub"]] + [["val", REF_NAMES[(3 * o + i) % 8]] for i in range(3)]
+                ds += [0] + list(h if o == 0 else h[::-1])
+            texts.append({"tokens": tk, "origin": "family", "delays": ds})
+        yield {"rules": {"Model": {"k": "asgn", "a": "c", "op": "+=", "rhs": "Sub"}, "Sub": sub}, "auto_init": True,
+               "texts": texts, "origin": "family",
+               "prov": {"key": rng.choice(PROVIDER_KEYS), "answer": rng.choice(["object", "none"])}}
